@@ -47,6 +47,15 @@ try:
         rc1, out1 = demo()
         meta["demo_patched_exit"] = rc1
         meta["demo_patched_tail"] = out1[-300:]
+        if a.no_tests:
+            # keep the pinned-suite result of an earlier full ingest of the same patch
+            try:
+                old = json.load(open(dst + "/meta.json"))
+                for k in ("pinned_suite", "pinned_suite_ok"):
+                    if k in old:
+                        meta[k] = old[k]
+            except Exception:
+                pass
         if not a.no_tests:
             t = subprocess.run(["/verif/tools/baseline.sh", wt], capture_output=True, text=True)
             meta["pinned_suite"] = t.stdout.strip().splitlines()[0] if t.stdout.strip() else "?"
